@@ -48,7 +48,14 @@ def check(path):
             elif parts[0] == "P":
                 form, ln, a, b, c = parts[1], int(parts[2]), p(parts[3]), p(parts[4]), p(parts[5])
                 sel = list(range(ln))[a:b:c]
-                if form.startswith("window:"):
+                if form.startswith("holes-"):
+                    n = min(ln, 10) if form == "holes-values" else ln
+                    want = fmt([i for i in range(n) if i % 3 != 1][a:b:c])
+                elif form in ("ml", "ml-pipe"):
+                    want = fmt(list(range(max(min(ln, 24), 1)))[a:b:c])
+                elif form in ("ml-null", "ml-null-pipe"):
+                    want = "N"
+                elif form.startswith("window:"):
                     _, w1, w2, w3 = form.split(":")
                     w3v = p(w3)
                     want = fmt(sel[p(w1):p(w2):(1 if w3v is None else w3v)])
